@@ -595,7 +595,10 @@ def _tlsrpt():
 
 SPF_MECHANISMS = ('all', 'include', 'a', 'mx', 'ptr', 'ip4', 'ip6', 'exists')
 SPF_MODIFIERS = ('redirect', 'exp')
-_SPF_MACRO_DOMAINS = ['%{ir}.%{l1r+-}._spf.%{d}', '%{i}._ip.%{d2}', '_spf.%{d}', '%{h}.example.com']
+_SPF_MACRO_DOMAINS = ['%{ir}.%{l1r+-}._spf.%{d}', '%{i}._ip.%{d2}', '_spf.%{d}', '%{h}.example.com',
+                      # RFC 7208 7.1: the delimiter set of a macro is any of . - + , / _ =
+                      '%{ir}.%{l1r+=}._spf.%{d}', '%{d2=}.spf.example.com', '%{l1r.-+,/_=}._x.%{d}', '%{o,}.%{d}',
+                      '%%.%_.%-.example.com', '%{L}.%{D}.example.com']
 
 
 def _spf_domains():
@@ -610,7 +613,7 @@ def _spf_term():
     v6 = st.tuples(st.integers(0, 2 ** 128 - 1), st.sampled_from([128, 128, 64, 48, 32, 56, 120, 0])).map(
         lambda pair: str(ipaddress.IPv6Network((pair[0] >> (128 - pair[1]) << (128 - pair[1]) if pair[1] else 0,
                                                 pair[1]))))
-    cidr4 = st.one_of(st.none(), st.none(), st.integers(0, 32))
+    cidr4 = st.one_of(st.none(), st.none(), st.integers(0, 32), st.sampled_from([0, 1, 31, 32]))
     unknown_name = st.builds(lambda head, tail: head + tail, st.sampled_from(list(ALPHA)),
                              st.text(alphabet=ALPHA + DIGIT + '-_.', max_size=8)).filter(
                                  lambda name: name.lower() not in SPF_MODIFIERS)
